@@ -131,7 +131,8 @@ def main(argv: list[str] | None = None) -> int:
         # A violation found by another shard is still a violation.
         if not merged["violations"]:
             return 2
-    if merged["evaluations"] > 0:
+    # mutation audits / seeded-change runs against a scratch tree must not replace the evidence of the real tree
+    if merged["evaluations"] > 0 and not os.environ.get("VERIF_NO_EVIDENCE"):
         harness.write_evidence(
             prop, args.tier, seed, merged,
             rule=getattr(mod, "RULE", ""),
